@@ -1,6 +1,7 @@
 import Rbp.Model.Merkle
 import Rbp.Model.Run
 import Rbp.Proofs.Faults
+import Rbp.Proofs.RunSpec
 /-!
 # C09 — `--verify` accepts exactly the chains whose merkle roots and prev-hash links hold
 -/
@@ -63,6 +64,63 @@ theorem rejected_no_final (o : Run.Opts) (key : Option W.Bytes) (kvs : List (W.B
   have := Run.run_fails_at o key kvs files coin ld hcoin hld hfiles hkey k m hk1 hk2
     ⟨r, hl, Or.inr ⟨f, hfile, Or.inr ⟨sz, b, hread, hv, hrej⟩⟩⟩ hs
   exact ⟨this.1, this.2.1, this.2.2.1, this.2.2.2.1⟩
+
+/-- in a range `[s, s+n)`, either a predicate holds everywhere or there is a first place where it fails -/
+theorem first_failure (P : Nat → Prop) (s : Nat) : ∀ n, (∀ k, s ≤ k → k < s + n → P k) ∨
+    ∃ k, s ≤ k ∧ k < s + n ∧ ¬ P k ∧ ∀ j, s ≤ j → j < k → P j := by
+  intro n
+  induction n with
+  | zero => left; intro k h1 h2; omega
+  | succ n ih =>
+    rcases ih with h | ⟨k, h1, h2, h3, h4⟩
+    · by_cases hp : P (s + n)
+      · left
+        intro k h1 h2
+        by_cases e : k = s + n
+        · subst e; exact hp
+        · exact h k h1 (by omega)
+      · right
+        exact ⟨s + n, by omega, by omega, hp, fun j hj1 hj2 => h j hj1 hj2⟩
+    · right; exact ⟨k, h1, by omega, h3, h4⟩
+
+/-- **`--verify` decides exactly the stated conditions, for the whole run.**  For a chain all of whose blocks in the range can
+    be read (`Run.Stored`) and on which verification never panics (every block has a transaction and the record of its
+    predecessor is present), a `--verify` run of csvdump succeeds iff EVERY processed block is accepted by `verifyBlock` —
+    which by `verify_iff` means: merkle root matches, height 0 hashes to the genesis hash, prev-hash equals the indexed hash of
+    the preceding height.  When some block is rejected the run exits 1 at the first such height and no final-named file exists -/
+theorem verify_run_decides (o : Run.Opts) (key : Option W.Bytes) (kvs : List (W.Bytes × W.Bytes)) (files : List Run.BlkFile)
+    (coin : Run.Coin) (ld : Run.Loaded) (hcoin : Run.coinOf o.coin = some coin) (hld : Run.loadIndex o kvs = .ok ld)
+    (hkey : key ≠ some []) (sz : Nat → Nat) (blk : Nat → W.Block)
+    (hst : ∀ k, o.start ≤ k → k < o.start + (ld.maxH + 1 - o.start) →
+      Run.Stored coin key (files.filterMap fun f => (Run.parseBlkIndex f.name).map fun n => (n, f)) ld.trimmed k (sz k) (blk k))
+    (hnp : ∀ k, o.start ≤ k → k < o.start + (ld.maxH + 1 - o.start) → ∀ m, Run.verifyBlock coin ld.trimmed (blk k).toR k ≠ .panic m)
+    (hne : o.start ≤ ld.maxH) (hv : o.verify = true) (hcb : o.callback = "csvdump") :
+    ((Run.run o key kvs files).exit = 0 ↔
+      ∀ k, o.start ≤ k → k < o.start + (ld.maxH + 1 - o.start) → Run.verifyBlock coin ld.trimmed (blk k).toR k = .ok ()) ∧
+    ((Run.run o key kvs files).exit ≠ 0 → (Run.run o key kvs files).files = []) := by
+  have hfiles : (files.filterMap fun f => (Run.parseBlkIndex f.name).map fun n => (n, f)) ≠ [] := by
+    obtain ⟨r, f, _, _, hf, _⟩ := hst o.start (Nat.le_refl _) (by omega)
+    intro e; rw [e] at hf; simp at hf
+  rcases first_failure (fun k => Run.verifyBlock coin ld.trimmed (blk k).toR k = .ok ()) o.start (ld.maxH + 1 - o.start) with hall | ⟨k, hk1, hk2, hbad, hpre⟩
+  · -- every block accepted: the run completes
+    obtain ⟨h0, _⟩ := Run.run_stored o key kvs files coin ld hcoin hld hkey sz blk
+      (fun k h1 h2 => ⟨hst k h1 h2, fun _ => hall k h1 h2⟩) hne (by simp [Run.callbackPanics, hcb])
+    exact ⟨⟨fun _ => hall, fun _ => h0⟩, fun hx => absurd h0 hx⟩
+  · -- first rejected block
+    obtain ⟨r, f, hl, hf, hread⟩ := Run.stored_readAt coin key _ ld.trimmed k (sz k) (blk k) (hst k hk1 hk2)
+    have herr : ∃ m, Run.verifyBlock coin ld.trimmed (blk k).toR k = .err m := by
+      cases hvb : Run.verifyBlock coin ld.trimmed (blk k).toR k with
+      | ok u => exact absurd hvb hbad
+      | err m => exact ⟨m, rfl⟩
+      | panic m => exact absurd hvb (hnp k hk1 hk2 m)
+    obtain ⟨m, hm⟩ := herr
+    have hs : ∀ j, o.start ≤ j → j < k →
+        Run.Servable coin o key (files.filterMap fun f => (Run.parseBlkIndex f.name).map fun n => (n, f)) ld.trimmed j := by
+      intro j hj1 hj2
+      obtain ⟨r', f', hl', hf', hread'⟩ := Run.stored_readAt coin key _ ld.trimmed j (sz j) (blk j) (hst j hj1 (by omega))
+      exact ⟨r', f', sz j, (blk j).toR, hl', hf', hread', fun _ => hpre j hj1 hj2⟩
+    obtain ⟨he, _, _, hfl⟩ := rejected_no_final o key kvs files coin ld hcoin hld hfiles hkey k m hk1 (by omega) hv r f (sz k) (blk k).toR hl hf hread hm hs
+    refine ⟨⟨fun h0 => (by rw [he] at h0; omega), fun hall => absurd (hall k hk1 hk2) hbad⟩, fun _ => hfl⟩
 
 /-- genesis hashes compiled into the binary built from the working tree = the published ones -/
 theorem genesis_table_published :
